@@ -59,6 +59,32 @@ SPECS = {
     },
 }
 
+SPECS["C12"] = {
+    "id": "C12", "kind": "component", "component": "confchange",
+    "run_module": "Run.RunConfChange", "runfun": "run_confchange",
+    "gens": [
+        {"prefix": "confchange-exh", "args": {"quick": ["--mode", "exhaustive", "--ids", "3", "--len", "2"],
+                                               "thorough": ["--mode", "exhaustive", "--ids", "4", "--len", "3"]}},
+        {"prefix": "confchange-rst", "args": {"quick": ["--mode", "restore", "--ids", "3"],
+                                               "thorough": ["--mode", "restore", "--ids", "4"]}},
+        {"prefix": "confchange-rnd", "args": {"quick": ["--mode", "random", "--count", "8000"],
+                                               "thorough": ["--mode", "random", "--count", "100000", "--len", "40"]}},
+    ],
+    "incoq": {"quick": 60, "thorough": 300},
+    "nontrivial_tokens": 6,
+    "rule": "cases = breadth-first walk over the distinct reachable (configuration, progress ids) states from 16 bootstrap ConfStates (incl. invalid, duplicated and id-0 ones), every op from every state (simple / enter_joint(auto) / leave_joint with all change lists over the id universe up to the tier's length, restore round-trip through Raft::new, Raft::apply_conf_change on V1/V2 with the classification), plus a sweep over all ConfStates of the universe through Raft::new, plus seeded random op sequences with ids 0..7; results, configuration, progress ids and change lists compared (hash-ordered vectors sorted on both sides); non-trivial = at least one op; distinct = distinct case lines",
+    "explanation": "Theorems for all ids/lists/configurations: Props/C12.v (30 statements: invariants preserved by simple/enter_joint/leave_joint, simple delta <= 1, joint shape, restore round-trip for every reachable configuration, quorum overlap before/after a change, V2 classification, zero/unknown ids). Tie: lockstep differential of M/ConfChange.v against Changer/ProgressTracker/Raft::new/Raft::apply_conf_change on every run + vm_compute sample.",
+    "trusted_base": TB_COMMON + ["HashSet iteration order not modelled: leave_joint's Remove list and ConfState vectors compared as sets",
+                                 "modelled not verified: src/confchange/changer.rs, src/confchange/restore.rs, tracker::Configuration/apply_conf/to_conf_state, proto/src/confchange.rs classification, proto/src/confstate.rs conf_state_eq"],
+    "manifest": {
+        "technique": "machine-checked proof in Coq (set algebra over sorted id lists, refinement of the changer to a set-level spec, pigeonhole for quorum overlap) + model/implementation correspondence by differential execution",
+        "text": "Props/C12.v (30 pinned theorems, all ids / change lists / configurations): every successful simple, enter-joint or leave-joint change from a valid tracker yields a valid one (voters and learners disjoint, staged learners inside outgoing voters, at least one voter, progress for exactly the members); simple changes alter the voter set by at most one member; joint shapes; rejected changes apply nothing and only the documented errors occur; restoring the ConfState of any reachable configuration reproduces it (any vector order); any deciding quorum before a change intersects any after it; ConfChangeV2 classification. Tied to the code on every run by exhaustive small-scope + random differential through Changer, ProgressTracker, Raft::new and Raft::apply_conf_change.",
+        "design_ref": "DESIGN.md section 7, C12",
+        "note": "Trusted: Coq kernel; hand-written model validated by differential execution; extraction + OCaml driver cross-checked by vm_compute; Rust harness. overlap needs >= 1 voter before the change (bootstrap from the empty configuration is refuted with a witness and excluded). No axioms.",
+    },
+    "assumptions": ["overlap theorems require a non-empty voter set before the change (C12_overlap_bootstrap_refuted shows why)"],
+}
+
 TB_NODE = TB_COMMON + [
     "hooks in /repo under cfg(tikv_raft_rs_verif): read-only views of private RaftCore/RawNode fields; election-timeout recorder/override (the drawn value is an oracle input of the model)",
     "cluster simulator /verif/harness/src/sim.rs (event alphabet, contract-abiding application, SimStorage = MemStorage with the application's own snapshot); dump/encode code harness/src/node.rs; outbound messages compared after a stable sort by destination (hash iteration order not modelled)",
